@@ -13,27 +13,27 @@ namespace Dht
 
 /-- Distance is symmetric. -/
 theorem C18.dist_symm (a b : Id) : Id.distance a b = Id.distance b a := by
-  sorry
+  exact Id.xor_comm a b
 
 /-- Distance is zero exactly for equal IDs. -/
 theorem C18.dist_zero_iff (a b : Id) (h : a.length = b.length) :
     (Id.distance a b).isZero = true ↔ a = b := by
-  sorry
+  exact Id.xor_isZero_iff a b h
 
 /-- The byte-wise comparison `T.Cmp` orders IDs as unsigned big-endian integers. -/
 theorem C18.cmp_eq_compare_toNat (a b : Id) (h : a.length = b.length) :
     Id.cmp a b = compare a.toNat b.toNat := by
-  sorry
+  exact Id.cmp_eq_compare_toNat a b h
 
 /-- Byte-wise xor is numeric xor. -/
 theorem C18.toNat_xor (a b : Id) (h : a.length = b.length) :
     (Id.xor a b).toNat = a.toNat ^^^ b.toNat := by
-  sorry
+  exact Id.toNat_xor a b h
 
 /-- Distance to a fixed target is injective: equal distances only for equal IDs. -/
 theorem C18.dist_injective (t a b : Id) (ha : a.length = t.length) (hb : b.length = t.length)
     (h : Id.distance a t = Id.distance b t) : a = b := by
-  sorry
+  exact Id.xor_right_cancel t a b ha hb h
 
 /-! ## Bucket index -/
 
@@ -43,44 +43,49 @@ theorem C18.bucketIndex_is_shared_prefix_len (root id : Id)
     (hr : root.length = 20) (hi : id.length = 20) (hne : id ≠ root) :
     ∃ i, bucketIndex root id = some i ∧ i < 160 ∧
       (∀ j, j < i → id.getBit j = root.getBit j) ∧ id.getBit i ≠ root.getBit i := by
-  sorry
+  exact bucketIndex_spec root id hr hi hne
 
 /-- The only ID without a bucket is the root (the Go code panics there). -/
 theorem C18.bucketIndex_none_iff (root id : Id) : bucketIndex root id = none ↔ id = root := by
-  sorry
+  unfold bucketIndex
+  by_cases h : id = root <;> simp [h]
 
 /-- A random ID drawn for bucket `i` lands in bucket `i`, whatever the draw. -/
 theorem C18.randomIdInBucket_lands (rnd root : Id) (i : Nat)
     (hr : root.length = 20) (hx : rnd.length = 20) (hi : i < 160) :
     (randomIdInBucket rnd root i).length = 20 ∧
     bucketIndex root (randomIdInBucket rnd root i) = some i := by
-  sorry
+  obtain ⟨hl, hp, hd⟩ := randomIdInBucket_spec rnd root i (by omega)
+  have hl' : (randomIdInBucket rnd root i).length = 20 := by omega
+  refine ⟨hl', bucketIndex_of_prefix root _ i hr hl' hi hp ?_⟩
+  rw [hd]
+  cases root.getBit i <;> simp
 
 /-! ## closer-than is a strict total order ranking known IDs by distance first -/
 
 def Cand.ok (c : Cand) : Prop := ∀ i, c.id = some i → i.length = 20
 
 theorem C18.closerThan_irrefl (t : Id) (c : Cand) : closerThan t c c = false := by
-  sorry
+  exact _root_.Dht.closerThan_irrefl t c
 
 theorem C18.closerThan_asymm (t : Id) (l r : Cand) :
     closerThan t l r = true → closerThan t r l = false := by
-  sorry
+  exact _root_.Dht.closerThan_asymm t l r
 
 theorem C18.closerThan_trans (t : Id) (a b c : Cand) :
     closerThan t a b = true → closerThan t b c = true → closerThan t a c = true := by
-  sorry
+  exact _root_.Dht.closerThan_trans t a b c
 
 /-- Totality: two different candidates are always ordered one way or the other. -/
 theorem C18.closerThan_total (t : Id) (l r : Cand) (ht : t.length = 20)
     (hl : l.ok) (hr : r.ok) (hne : l ≠ r) :
     closerThan t l r = true ∨ closerThan t r l = true := by
-  sorry
+  exact _root_.Dht.closerThan_total t l r ht hl hr hne
 
 /-- Known IDs rank ahead of unknown ones. -/
 theorem C18.closerThan_known_before_unknown (t : Id) (l r : Cand) (i : Id)
     (hl : l.id = some i) (hr : r.id = none) : closerThan t l r = true := by
-  sorry
+  exact closerThan_some_none t l r i hl hr
 
 /-- Among known IDs the XOR distance to the target, as an unsigned integer, decides. -/
 theorem C18.closerThan_by_distance (t : Id) (l r : Cand) (li ri : Id)
@@ -88,7 +93,7 @@ theorem C18.closerThan_by_distance (t : Id) (l r : Cand) (li ri : Id)
     (hlen : li.length = t.length) (hlen' : ri.length = t.length)
     (hd : (Id.distance li t).toNat < (Id.distance ri t).toNat) :
     closerThan t l r = true := by
-  sorry
+  exact _root_.Dht.closerThan_by_distance t l r li ri hl hr hlen hlen' hd
 
 /-! ## The sorted candidate set -/
 
@@ -100,29 +105,61 @@ def SSet.sorted (t : Id) : List Cand → Prop
 
 def SSet.okSet (t : Id) (xs : List Cand) : Prop := SSet.sorted t xs ∧ ∀ c ∈ xs, c.ok
 
+/-- Adjacent sortedness is pairwise sortedness (by transitivity). -/
+theorem SSet.sorted_iff_pairwise (t : Id) (xs : List Cand) :
+    SSet.sorted t xs ↔ xs.Pairwise (fun a b => closerThan t a b = true) := by
+  rw [← SSet.sorted'_iff_pairwise]
+  induction xs with
+  | nil => simp [SSet.sorted, SSet.sorted']
+  | cons a xs ih =>
+    cases xs with
+    | nil => simp [SSet.sorted, SSet.sorted']
+    | cons b rest => simp only [SSet.sorted, SSet.sorted', ih]
+
 theorem C18.sset_add_sorted (t : Id) (ht : t.length = 20) (xs : List Cand) (c : Cand)
     (h : SSet.okSet t xs) (hc : c.ok) : SSet.okSet t (SSet.add t xs c) := by
-  sorry
+  obtain ⟨hs, hok⟩ := h
+  rw [SSet.sorted_iff_pairwise] at hs
+  refine ⟨(SSet.sorted_iff_pairwise t _).mpr (SSet.add_pairwise t ht xs c hok hc hs), ?_⟩
+  intro x hx
+  rcases SSet.mem_add_imp t xs c x hx with rfl | hx
+  · exact hc
+  · exact hok x hx
 
 theorem C18.sset_add_mem (t : Id) (ht : t.length = 20) (xs : List Cand) (c x : Cand)
     (h : SSet.okSet t xs) (hc : c.ok) :
     x ∈ SSet.add t xs c ↔ x = c ∨ x ∈ xs := by
-  sorry
+  exact SSet.mem_add t ht xs c x h.2 hc
 
 theorem C18.sset_delete_sorted (t : Id) (xs : List Cand) (c : Cand)
     (h : SSet.okSet t xs) : SSet.okSet t (SSet.delete t xs c) := by
-  sorry
+  obtain ⟨hs, hok⟩ := h
+  rw [SSet.sorted_iff_pairwise] at hs
+  have hsub := SSet.delete_sublist t xs c
+  exact ⟨(SSet.sorted_iff_pairwise t _).mpr (hs.sublist hsub), fun x hx => hok x (hsub.subset hx)⟩
 
 theorem C18.sset_delete_mem (t : Id) (ht : t.length = 20) (xs : List Cand) (c x : Cand)
     (h : SSet.okSet t xs) (hc : c.ok) :
     x ∈ SSet.delete t xs c ↔ x ∈ xs ∧ x ≠ c := by
-  sorry
+  obtain ⟨hs, hok⟩ := h
+  rw [SSet.sorted_iff_pairwise] at hs
+  exact SSet.mem_delete t ht xs c x hok hc hs
 
 /-- `Next` returns the element closest to the target: nothing in the set is closer. -/
 theorem C18.sset_next_is_min (t : Id) (xs : List Cand) (m : Cand)
     (h : SSet.okSet t xs) (hm : SSet.next xs = some m) :
     ∀ x ∈ xs, x ≠ m → closerThan t m x = true := by
-  sorry
+  obtain ⟨hs, _⟩ := h
+  rw [SSet.sorted_iff_pairwise] at hs
+  cases xs with
+  | nil => simp [SSet.next] at hm
+  | cons y ys =>
+    simp only [SSet.next, List.head?_cons, Option.some.injEq] at hm
+    subst hm
+    intro x hx hne
+    rcases List.mem_cons.mp hx with h | h
+    · exact absurd h hne
+    · exact (List.pairwise_cons.mp hs).1 x h
 
 /-! ## K-nearest container: for every push history, exactly the K nearest are retained -/
 
@@ -135,6 +172,17 @@ inductive KNN.Reach (t : Id) (k : Nat) : List KElem → List KElem → Prop
 /-- The distinct keys pushed so far, each with the data of its latest push. -/
 def KNN.latest (hist : List KElem) : List KElem := hist.foldl KNN.upsert []
 
+/-- The full inductive invariant behind `C18.knn_retains_k_nearest` (it adds: no two
+elements of the container, or of the latest-push list, share a key). -/
+theorem C18.knn_invariant (t : Id) (k : Nat) (hist s : List KElem)
+    (h : KNN.Reach t k hist s) : KNN.Inv t k (KNN.latest hist) s := by
+  induction h with
+  | init => exact KNN.Inv.init t k
+  | @push hist s e s' _ hp ih =>
+    have : KNN.latest (hist ++ [e]) = KNN.upsert (KNN.latest hist) e := KNN.latest'_snoc hist e
+    rw [this]
+    exact ih.step hp
+
 /-- After any push history the container holds `min k (#distinct keys)`
 elements, in distance order, each a pushed element with its latest data, and
 every pushed key it does not hold is at least as far from the target as every
@@ -145,17 +193,23 @@ theorem C18.knn_retains_k_nearest (t : Id) (k : Nat) (hist s : List KElem)
     KNN.sortedBy t s = true ∧
     (∀ m ∈ s, m ∈ KNN.latest hist) ∧
     (∀ p ∈ KNN.latest hist, p ∉ s → ∀ m ∈ s, m.dist t ≤ p.dist t) := by
-  sorry
+  have hinv := C18.knn_invariant t k hist s h
+  exact ⟨hinv.len, (KNN.sortedBy_iff t s).mpr hinv.sorted, hinv.sub, hinv.far⟩
 
 /-- The deterministic instance used by the traversal model is one of the allowed results. -/
 theorem C18.knn_push_allowed (t : Id) (k : Nat) (s : List KElem) (e : KElem)
     (hs : KNN.sortedBy t s = true) (hn : KNN.nodupKeys s = true) :
     KNN.pushAllowed t k s e (KNN.push t k s e) = true := by
-  sorry
+  exact KNN.push_allowed t k s e ((KNN.sortedBy_iff t s).mp hs) ((KNN.nodupKeys_iff s).mp hn)
 
 /-! ## Non-vacuity -/
 
--- example pending
+example : KNN.Reach [0,0] 1 [⟨[0,1], ⟨1,[1,2,3,4],5⟩, none⟩, ⟨[0,2], ⟨1,[1,2,3,4],6⟩, none⟩]
     [⟨[0,1], ⟨1,[1,2,3,4],5⟩, none⟩] :=
+  KNN.Reach.push (hist := [⟨[0,1], ⟨1,[1,2,3,4],5⟩, none⟩]) (s := [⟨[0,1], ⟨1,[1,2,3,4],5⟩, none⟩])
+    ⟨[0,2], ⟨1,[1,2,3,4],6⟩, none⟩ [⟨[0,1], ⟨1,[1,2,3,4],5⟩, none⟩]
+    (KNN.Reach.push (hist := []) (s := []) ⟨[0,1], ⟨1,[1,2,3,4],5⟩, none⟩
+      [⟨[0,1], ⟨1,[1,2,3,4],5⟩, none⟩] KNN.Reach.init (by decide))
+    (by decide)
 
 end Dht
